@@ -29,13 +29,24 @@ def exp_num(x):
     return F(x).limit_denominator(10 ** 6)
 
 
+def rnd_num(rnd, menu):
+    t = rnd.random()
+    if t < 0.6:
+        return rnd.choice(menu)
+    if t < 0.75:
+        return rnd.randint(1, 10 ** 6) / 10 ** rnd.randint(1, 6)  # float needing a denominator up to 10^6
+    if t < 0.9:
+        return rnd.random() * rnd.choice([1, 10, 1000])  # float that must be rounded to the closest such fraction
+    return F(rnd.randint(1, 10 ** 6), rnd.randint(1, 10 ** 6))
+
+
 def gen_ballot_spec(rnd, cs):
     kind = rnd.choice(["r", "r", "s", "rs", "none"])
-    d = {"w": rnd.choice(WEIGHTS)}
+    d = {"w": rnd_num(rnd, WEIGHTS)}
     if "r" in kind:
         d["r"] = gen.ranking(rnd, cs, ties=rnd.random() < 0.4)
     if "s" in kind:
-        d["s"] = {c: rnd.choice(SCORES) for c in rnd.sample(cs, rnd.randint(1, len(cs)))}
+        d["s"] = {c: rnd_num(rnd, SCORES) for c in rnd.sample(cs, rnd.randint(1, len(cs)))}
     if rnd.random() < 0.2:
         d["id"] = "id%d" % rnd.randint(0, 5)
     if rnd.random() < 0.2:
